@@ -167,7 +167,10 @@ fn replace(node: xml_dom::XmlNode, value: &str) -> Result<(), Box<dyn Error>> {
     match node {
         xml_dom::XmlNode::Document(v) => {
             clear_child(v.clone())?;
-            append_child(v, value)?;
+            append_child(v.clone(), value)?;
+            if v.document_element().is_err() {
+                return Err("Specify exactly one XML element as the document's content.".into());
+            }
         }
         xml_dom::XmlNode::Attribute(v) => {
             clear_child(v.clone())?;
@@ -198,7 +201,7 @@ where
 
 fn append_child<T>(node: T, value: &str) -> Result<(), Box<dyn Error>>
 where
-    T: Clone + xml_dom::Node + xml_dom::NodeMut,
+    T: Clone + xml_dom::Node + xml_dom::NodeMut + AsNode,
 {
     let new_value = parse_node(value)?;
 
@@ -209,15 +212,24 @@ where
     Ok(())
 }
 
+/// The document a node creates its children with: a document has no owner document, it is its own.
+fn document_of<T>(node: &T) -> Result<xml_dom::XmlDocument, Box<dyn Error>>
+where
+    T: xml_dom::Node + AsNode,
+{
+    match node.as_node() {
+        xml_dom::XmlNode::Document(v) => Ok(v),
+        _ => node.owner_document().ok_or_else(|| "Not found owner document.".into()),
+    }
+}
+
 fn append_child_to_tree<T>(node: T, child: xml_dom::XmlNode) -> Result<(), Box<dyn Error>>
 where
-    T: Clone + xml_dom::Node + xml_dom::NodeMut,
+    T: Clone + xml_dom::Node + xml_dom::NodeMut + AsNode,
 {
     match child {
         xml_dom::XmlNode::Attribute(v) => {
-            let mut n = node
-                .owner_document()
-                .unwrap()
+            let mut n = document_of(&node)?
                 .create_attribute(v.name().as_str())?;
             n.borrow_mut().set_value(v.value()?.as_str())?;
 
@@ -228,23 +240,17 @@ where
             }
         }
         xml_dom::XmlNode::CData(v) => {
-            let n = node
-                .owner_document()
-                .unwrap()
+            let n = document_of(&node)?
                 .create_cdata_section(v.data()?.as_str());
             node.append_child(n.as_node())?;
         }
         xml_dom::XmlNode::Comment(v) => {
-            let n = node
-                .owner_document()
-                .unwrap()
+            let n = document_of(&node)?
                 .create_comment(v.data()?.as_str());
             node.append_child(n.as_node())?;
         }
         xml_dom::XmlNode::Element(v) => {
-            let n = node
-                .owner_document()
-                .unwrap()
+            let n = document_of(&node)?
                 .create_element(v.tag_name().as_str())?;
             node.append_child(n.as_node())?;
 
@@ -259,16 +265,12 @@ where
             }
         }
         xml_dom::XmlNode::EntityReference(v) => {
-            let n = node
-                .owner_document()
-                .unwrap()
+            let n = document_of(&node)?
                 .create_entity_reference(v.node_name().as_str())?;
             node.append_child(n.as_node())?;
         }
         xml_dom::XmlNode::Text(v) => {
-            let n = node
-                .owner_document()
-                .unwrap()
+            let n = document_of(&node)?
                 .create_text_node(v.data()?.as_str());
             node.append_child(n.as_node())?;
         }
